@@ -58,6 +58,7 @@ type CmdDef struct {
 	LateOpts     []OptDef // declared after the commands of this level
 	Cmds         []*CmdDef
 	UnknownMode  int // -1 not set
+	UModeFirst   int // >0: SetUnknownMode(UModeFirst-1) is called before the final one
 	RequireOrder bool
 	UnsetOptions bool
 	SettingsLate bool // unknown mode / require order set after the commands were created
@@ -71,6 +72,7 @@ type ProgDef struct {
 	Root      *CmdDef
 	Mode      int
 	MapLower  bool
+	ModeFirst int // >0: SetMode(ModeFirst-1) is called before the final SetMode(Mode) (a setter called twice)
 	Help      bool
 	HelpName  string
 	HelpAlias []string
@@ -354,6 +356,9 @@ func Linearise(p *ProgDef) []Op {
 	var cmd func(path []string, c *CmdDef)
 	settings := func(path []string, c *CmdDef) {
 		if c.UnknownMode >= 0 {
+			if c.UModeFirst > 0 {
+				ops = append(ops, Op{Kind: "umode", Path: clonePath(path), Int: c.UModeFirst - 1})
+			}
 			ops = append(ops, Op{Kind: "umode", Path: clonePath(path), Int: c.UnknownMode})
 		}
 		if c.RequireOrder {
@@ -432,6 +437,9 @@ func BuildOps(p *ProgDef, ops []Op) (b *Built, err error) {
 	b = &Built{FnIDs: map[string]int{}, Ptrs: map[string]interface{}{}, pathOf: map[*CmdDef]string{}}
 	g := getoptions.New()
 	g.Self(p.Root.Name, p.Root.Desc)
+	if p.ModeFirst > 0 {
+		g.SetMode(getoptions.Mode(p.ModeFirst - 1))
+	}
 	g.SetMode(getoptions.Mode(p.Mode))
 	if p.MapLower {
 		g.SetMapKeysToLower()
